@@ -330,8 +330,30 @@ def extra(rep, tier, seed, budget):
     # evaluation stand-in: each destination moves to the queue commit of the newest selected pull request)
     from bounded import c05_queue
     from specs import c05
-    c05.integrate(rep, c05_queue.run(tier, seed), clauses=('b', 'exception'))
+    _qres = c05_queue.run(tier, seed)
+    c05.integrate(rep, _qres, clauses=('b', 'exception'))
     from pyvc.cli import write_replay
+    # ... and a pull request that is NOT selected lands nowhere: the queue commit of a selected pull request
+    # contains every earlier entry of the versions they share, so a selection that skips an earlier pull request
+    # sharing a version with a selected one publishes the skipped changeset on a strict subset of its targets
+    # (judged on the clause (a) failures of the same stand-in; a too long PREFIX - known finding F4 - is not this)
+    _seen = set()
+    for f in _qres.get('failures', []):
+        if f.get('clause') != 'a' or not isinstance(f.get('case'), dict) or not isinstance(f.get('got'), list):
+            continue
+        shape, prs, _st = c05_queue.case_parts(f['case'])[:3]
+        got = set(f['got'])
+        tg = {i: set(c05_queue.oracle_targets(shape, d)) for i, d in enumerate(prs, 1)}
+        skipped = sorted((q, p_) for p_ in got for q in range(1, p_) if q not in got and tg[q] & tg[p_] and tg[q] - tg[p_])
+        if not skipped:
+            continue
+        k = 'bounded:c05_queue:partial_landing:%s' % f.get('signature', 'a')
+        if k in _seen or len(_seen) >= 3:
+            continue
+        _seen.add(k)
+        rep.violations.append({'key': k, 'what': 'queue evaluation selects pull request %d but not the earlier %d: its changeset lands '
+                               'on a strict subset of its targets' % (skipped[0][1], skipped[0][0]),
+                               'replay': write_replay(rep.pid, k, f), 'input': f.get('case'), 'noinput': False})
     facts = []
     src_all = inspect.getsource(GIT.Repository.push_all)
     facts.append(('Repository.push_all runs `git push --all --atomic`', "'git push --all --atomic %s'" in src_all, src_all))
